@@ -107,7 +107,10 @@ func body(s *simrt.Sim, tier string) {
 	// With at most 10 values in all, every subscriber's 10-slot buffer can hold whatever it does not read:
 	// in such runs stalled readers may stay stalled for good ("hard stall") and still no Broadcast,
 	// cancellation or Close may wait for them.
-	hardStall := nval <= 10 && s.Choose(2, "hardstall") == 0
+	// With more values than that a Broadcast may come to wait for a reader that is stalled for good - until Close,
+	// which at any moment releases it and returns (bigHard).
+	hardStall := s.Choose(2, "hardstall") == 0
+	bigHard := hardStall && nval > 10
 	// a stalled reader whose context ends has left: half of the time it never reads again
 	deadAfterCancel := s.Choose(2, "deadAfterCancel") == 0
 
@@ -234,11 +237,20 @@ func body(s *simrt.Sim, tier string) {
 			})
 		}
 	}
-	if !s.Join(100*time.Millisecond, workNames...) {
-		if hardStall {
+	joined := s.Join(100*time.Millisecond, workNames...)
+	if !joined {
+		if bigHard && !closeRace {
+			// Broadcasts wait for the reader that is stalled for good: the Close below must release them
+			s.Probe("broadcast-blocked-until-close")
+		} else if bigHard {
+			s.Fail("deadlock", "a live subscriber is stalled for good with more than 10 values outstanding: Close must return all the same and release the Broadcast that waits for that subscriber; Broadcast / Close / cancel did not return\n"+s.Dump())
+			return
+		} else if hardStall {
 			s.Fail("deadlock", "Broadcast / Close / cancel did not return although no subscriber ever had more than 10 values outstanding (stalled readers must not be waited for)\n"+s.Dump())
 			return
 		}
+	}
+	if !hardStall && !joined {
 		resume.Store(true)
 		s.Fault("subscriber.stall")
 		if !s.Join(20*time.Second, workNames...) {
@@ -311,6 +323,10 @@ func body(s *simrt.Sim, tier string) {
 		s.Go("closer2", doClose)
 		if !s.Join(20*time.Second, "closer", "closer2") {
 			s.Fail("close-deadlock", fmt.Sprintf("Close did not return (hard stall: %v; otherwise no subscriber is stalled any more)\n", hardStall)+s.Dump())
+			return
+		}
+		if !s.Join(20*time.Second, workNames...) {
+			s.Fail("deadlock", "Close returned but a Broadcast that was waiting for a stalled subscriber did not\n"+s.Dump())
 			return
 		}
 	}
